@@ -52,11 +52,13 @@ func (f *HTMLFormatter) Write(result interface{}) error {
 		return err
 	}
 
-	if err := fallbackFormatter.Write(result); err != nil {
-		return err
-	}
+	// The element is closed even when the result could not be encoded, so that
+	// what has been written stays well formed. The first error is returned.
+	err := fallbackFormatter.Write(result)
 
-	_, err := f.Writer.Write([]byte("\n</pre>"))
+	if _, closeErr := f.Writer.Write([]byte("\n</pre>")); err == nil {
+		err = closeErr
+	}
 
 	return err
 }
